@@ -18,7 +18,9 @@ FOCUS = ("a MULTI-STEP sequence of operations on one object (state carried from 
          "a different cargo feature configuration, an arithmetic edge that needs a particular magnitude AND a particular position in the data, "
          "a rarely used attribute / option / trait method of the public API in combination with an ordinary one, a generic parameter instantiated with an unusual "
          "but legal type (zero-sized, a reference, a wrapper, a type with a lifetime), or behaviour that only shows when an object is used AGAIN after an error, "
-         "a cancellation, a partial iteration or a reconfiguration (set_* / into_parts / with_* / probe / set_position)")
+         "a cancellation, a partial iteration or a reconfiguration (set_* / into_parts / with_* / probe / set_position), a trait impl OTHER than Encode / Decode that the "
+         "property silently relies on (PartialEq / Ord / Hash / Clone / Default / From / TryFrom / Display / size_hint / AsRef / Deref of the library's own types), "
+         "something that differs between a debug and a release build, or a piece of state kept OUTSIDE the object (thread-local, static, the sink) that survives a failed call")
 for i in ids:
     p = props[i]
     wt = f"/tmp/wt{tag}/{i}"
